@@ -11,6 +11,9 @@ from .c11 import CACHE, DIRS
 SCENARIOS_QUICK = [
     ("meta", ["gopher", "http"], 2),
     ("small", ["gopherp_dir", "gopher"], 2),
+    # two readers arriving at a fresh but truncated cache file (a writer died a moment ago)
+    ("small", ["gopher", "gopher"], 2, "half"),
+    ("meta", ["gopher", "http"], 2, "one-byte-short"),
 ]
 SCENARIOS_THOROUGH = [
     ("meta", ["gopher", "http"], 3),
@@ -18,6 +21,9 @@ SCENARIOS_THOROUGH = [
     ("meta", ["http", "gopherp_dir"], 3),
     ("small", ["gopher", "gopher", "http"], 2),
     ("meta", ["gopher", "gemini", "gopherp_dir"], 2),
+    ("small", ["gopher", "gopher"], 3, "half"),
+    ("meta", ["gopher", "http"], 3, "one-byte-short"),
+    ("meta", ["http", "gopherp_dir", "gopher"], 2, "empty"),
 ]
 
 
@@ -25,7 +31,11 @@ def _select(name, selector):
     return selector.endswith(CACHE) or name == "listdir"
 
 
-def _run_scenario(part, d, protos, bound, roots=None, cap=None):
+def _cut(blob, initial):
+    return {"half": blob[: len(blob) // 2], "one-byte-short": blob[:-1], "empty": b""}[initial]
+
+
+def _run_scenario(part, d, protos, bound, roots=None, cap=None, initial=None):
     sched.install(_select)
     w = rig.World({k: dict(v) for k, v in DIRS.items()}, handlers="default", cachetime=0, tag="c11s")
     try:
@@ -37,10 +47,18 @@ def _run_scenario(part, d, protos, bound, roots=None, cap=None):
         # warm the lazies: this part is about the cache file only
         w.serve(*rig.request("gopher", "/nested"))
         cpath = os.path.join(w.root, d, CACHE)
+        blob = None
+        if initial:
+            w.serve(*rig.request(protos[0], "/" + d))
+            with open(cpath, "rb") as f:
+                blob = f.read()
 
         def make_funcs():
             if os.path.exists(cpath):
                 os.unlink(cpath)
+            if initial:
+                with open(cpath, "wb") as f:
+                    f.write(_cut(blob, initial))
             funcs = []
             for p in protos:
                 data, tls = rig.request(p, "/" + d)
@@ -77,9 +95,9 @@ def _run_scenario(part, d, protos, bound, roots=None, cap=None):
             part.state("sched", d, tuple(protos), tuple(x.choices))
             part.outcome("sched", d, tuple(protos), tuple(outs), core.h64(final), bad[0] if bad else "")
             if bad:
-                key = "sched|%s|%s|%s|%s" % (d, "+".join(protos), ",".join(map(str, x.choices)), bad[0])
+                key = "sched|%s%s|%s|%s|%s" % (d, "@" + initial if initial else "", "+".join(protos), ",".join(map(str, x.choices)), bad[0])
                 part.violation(key, bad[1] + " ; schedule points: %r" % ([p[2] for p, c in zip(x.points, x.choices) if c][:6],),
-                               {"kind": "sched", "d": d, "protos": protos, "choices": list(x.choices)})
+                               {"kind": "sched", "d": d, "protos": protos, "choices": list(x.choices), "initial": initial})
 
         n, capped = sched.explore(make_funcs, bound, on_exec, roots=roots, cap=cap)
         part.count("schedules", n)
@@ -91,8 +109,9 @@ def _run_scenario(part, d, protos, bound, roots=None, cap=None):
 
 def _shard(shard, seed, tier):
     part = core.Partial()
-    d, protos, bound, root = shard
-    _run_scenario(part, d, protos, bound, roots=[root] if root is not None else None)
+    d, protos, bound, root = shard[:4]
+    initial = shard[4] if len(shard) > 4 else None
+    _run_scenario(part, d, protos, bound, roots=[root] if root is not None else None, initial=initial)
     if root in (None, []) or root == [0]:
         part.sample({"scenario": "concurrent requests for /%s via %s" % (d, protos), "preemption_bound": bound})
     return part
@@ -112,8 +131,15 @@ def replay_case(case):
         w.reconfigure(handlers="default", cachetime=100000)
         w.serve(*rig.request("gopher", "/nested"))
         cpath = os.path.join(w.root, d, CACHE)
+        if case.get("initial"):
+            w.serve(*rig.request(protos[0], "/" + d))
+            with open(cpath, "rb") as f:
+                blob = f.read()
         if os.path.exists(cpath):
             os.unlink(cpath)
+        if case.get("initial"):
+            with open(cpath, "wb") as f:
+                f.write(_cut(blob, case["initial"]))
         funcs = []
         for p in protos:
             data, tls = rig.request(p, "/" + d)
@@ -135,12 +161,13 @@ def replay_case(case):
 def run(ck):
     scen = SCENARIOS_QUICK if ck.tier == "quick" else SCENARIOS_THOROUGH
     shards = []
-    for d, protos, bound in scen:
+    for sc in scen:
+        d, protos, bound = sc[:3]
         # shard on the first decision (which task starts) — a free choice
         for first in range(len(protos)):
-            shards.append((d, protos, bound, [first]))
+            shards.append((d, protos, bound, [first]) + tuple(sc[3:]))
     p = ck.pmap(_shard, shards)
-    ck.bounds["sched_scenarios"] = [(d, protos, b) for d, protos, b in scen]
+    ck.bounds["sched_scenarios"] = [list(sc) for sc in scen]
     ck.notes.append("schedules explored: %d; distinct (responses, final cache file) outcomes are part of distinct_nontrivial" % p.extra.get("schedules", 0))
     if p.extra.get("capped"):
         ck.caps.append("schedule cap hit in %r" % p.extra["capped"])
